@@ -43,6 +43,16 @@ structure Bnd (s : St) : Prop where
   tp2  : ∀ p e b, s.tpc p = .tp2 e b → 0 < b
   tp3  : ∀ p e, s.tpc p = .tp3 e → 0 < s.lb
   tp4  : ∀ p ok, s.tpc p = .tp4 ok → s.bufT p ≠ [] → 0 < s.lb
+  -- memory values (what a lock-free load may return, also in the middle of a re-centring) and slot loads
+  base0 : 0 ≤ s.base
+  tops : s.top ≤ s.size
+  pk2  : ∀ p b, s.tpc p = .pk2 b → 0 ≤ b
+  pk3  : ∀ p b, s.tpc p = .pk3 b → 0 ≤ b ∧ b < s.size
+  tk3  : ∀ p b x, s.tpc p = .tk3 b x → 0 ≤ b
+  vk3  : ∀ p b, s.tpc p = .vk3 b → b < s.size
+  po3  : ∀ t x, s.opc = .po3 t x → t < s.size
+  po5  : ∀ t x, s.opc = .po5 t x → 0 ≤ t ∧ t < s.size
+  po5b : ∀ t r, s.opc = .po5b t r → 0 ≤ t ∧ t < s.size
 
 theorem init_bnd (n : Int) (hn : 0 ≤ n) : Bnd (init FenceCfg.code n) := by
   constructor
